@@ -39,7 +39,7 @@ def scenarios(draw):
          'errors': draw(st.sampled_from([None, None, 'temporary', 'permanent', 'ignored'])),
          'retries': draw(st.sampled_from([None, None, 1, 2, 3])),
          'timeout': draw(st.sampled_from([None, None, 2.0, 6.0, 6.0 - 1e-6, 15.0])),
-         'backoff': draw(st.sampled_from([None, 0.5, 3.0])),
+         'backoff': draw(st.sampled_from([None, 0.5, 3.0, 0])),
          'duration': draw(st.lists(st.sampled_from([0, 0, 0.5, 2.0]), min_size=1, max_size=4))}
     restarts = []
     if kind in ('create', 'update', 'sub') and draw(st.booleans()):
